@@ -371,6 +371,18 @@ impl Profile {
                 max_ops: 100,
                 ..base
             },
+            // tree-stall with a small max_open_files on top (finding F-C20-4)
+            "tree-stall-tight" => Profile {
+                name: "tree-stall-tight",
+                mode: Mode::Tree,
+                adversarial_thresholds: true,
+                tight_files: true,
+                scans: false,
+                verify: false,
+                min_ops: 20,
+                max_ops: 70,
+                ..base
+            },
             "tree-stall" => Profile {
                 name: "tree-stall",
                 mode: Mode::Tree,
